@@ -131,6 +131,8 @@ class Engine:
         self.opaque_fns = {}       # def-name -> python callable(engine, args) replacing MIR body
         self.model_cache = []
         self.block_hook = None
+        self.lazy_fp = True
+        self._fp_memo = {}
 
     # ------------------------------------------------------------------
     # exploration
@@ -197,6 +199,12 @@ class Engine:
             return True
         if z3.is_false(c):
             return False
+        if self.lazy_fp and _has_fp(c, self._fp_memo):
+            # floating-point feasibility queries are the expensive ones; assuming the branch feasible is sound for
+            # exploration (an infeasible path has an unsatisfiable condition and contributes nothing to any obligation,
+            # which are all decided by the solver afterwards)
+            self.uni.stats['assumed_feasible'] = self.uni.stats.get('assumed_feasible', 0) + 1
+            return True
         # axioms created since the path started
         ax = self.uni.axioms
         extra = ax[self.solver_axioms:]
@@ -218,6 +226,17 @@ class Engine:
             self.model_cache.append(self.solver.model())
             if len(self.model_cache) > 6:
                 self.model_cache.pop(0)
+            return True
+        if r == z3.unsat:
+            return False
+        # a loaded machine can make a query miss its time cap: retry once with a much larger cap before giving up
+        self.solver.set('timeout', self.uni.timeout_ms * 6)
+        try:
+            r = self.solver.check(c, *extra) if extra else self.solver.check(c)
+        finally:
+            self.solver.set('timeout', self.uni.timeout_ms)
+        self.uni.stats['z3_retries'] = self.uni.stats.get('z3_retries', 0) + 1
+        if r == z3.sat:
             return True
         if r == z3.unsat:
             return False
@@ -1083,6 +1102,31 @@ class Engine:
         if hasattr(v, 'oid'):
             return ('O', v.oid)
         return ('id', id(v))
+
+
+def _has_fp(t, memo):
+    k = t.get_id()
+    r = memo.get(k)
+    if r is None:
+        stack = [t]
+        seen = set()
+        r = False
+        while stack:
+            x = stack.pop()
+            i = x.get_id()
+            if i in seen:
+                continue
+            seen.add(i)
+            if memo.get(i) is True:
+                r = True
+                break
+            srt = x.sort()
+            if srt.kind() in (z3.Z3_FLOATING_POINT_SORT, z3.Z3_ROUNDING_MODE_SORT):
+                r = True
+                break
+            stack.extend(x.children())
+        memo[k] = r
+    return r
 
 
 class SliceRef:
